@@ -3168,8 +3168,9 @@ def model_world(repo):
     return world
 
 
-def build_fixture_model(repo, world):
-    from .c13_fixture import STEPS, CONTROLS
+def build_fixture_model(repo, world, variant="A"):
+    from .c13_fixture import recipe
+    STEPS, CONTROLS = recipe(variant)
     I = world.interp
     LS = world.overrides["wntr.network.base.LinkStatus"]
     call = lambda o, m, *a, **k: I.call(I.getattr_(o, m), list(a), k)
@@ -3246,6 +3247,13 @@ def rule_round_trip(repo, chk):
     import copy as _copy
     from ..concrete import ProgramError
     fd = repo.func(NIO, "from_dict")
+    for variant in ("A", "B"):
+        _round_trip_variant(repo, chk, fd, variant, json, _copy, ProgramError)
+    chk.floor("R-C13-10", 20)
+
+
+def _round_trip_variant(repo, chk, fd, variant, json, _copy, ProgramError):
+    tagv = "" if variant == "A" else " [variant %s]" % variant
     world = model_world(repo)
     to_dict, from_dict = world.function(NIO, "to_dict"), world.function(NIO, "from_dict")
 
@@ -3259,7 +3267,7 @@ def rule_round_trip(repo, chk):
             raise TypeError("not JSON serialisable: %r" % (o,))
         return json.loads(json.dumps(d, default=default))
     try:
-        wn = build_fixture_model(repo, world)
+        wn = build_fixture_model(repo, world, variant)
         d1 = norm_json(to_dict(wn))
         wn2 = from_dict(_copy.deepcopy(d1))
         d2 = norm_json(to_dict(wn2))
@@ -3267,23 +3275,22 @@ def rule_round_trip(repo, chk):
         from_dict(_copy.deepcopy(d1), append=wn3)
         d3 = norm_json(to_dict(wn3))
     except ProgramError as e:
-        chk.bad("R-C13-10", "the fixture model survives to_dict -> JSON -> from_dict -> to_dict", loc(fd), "the repository's own code (interpreted) raised on the fixture model",
+        chk.bad("R-C13-10", "the fixture model survives to_dict -> JSON -> from_dict -> to_dict" + tagv, loc(fd), "the repository's own code (interpreted) raised on the fixture model",
                 found="%s (line %s)" % (e, e.lineno))
         return
     except TypeError as e:
-        chk.bad("R-C13-10", "the dictionary of the fixture model is JSON serialisable", loc(fd), found=str(e))
+        chk.bad("R-C13-10", "the dictionary of the fixture model is JSON serialisable" + tagv, loc(fd), found=str(e))
         return
     sizes = {k: len(v) for k, v in d1.items() if isinstance(v, list)}
     if sizes.get("nodes", 0) < 8 or sizes.get("links", 0) < 13 or sizes.get("controls", 0) < 13 or sizes.get("curves", 0) < 6 or sizes.get("sources", 0) < 2:
         raise ExtractError("R-C13-10: the fixture model did not come out complete (%s)" % sizes)
     for sec in ("options", "curves", "patterns", "nodes", "links", "sources", "controls", "name", "references"):
         df = dict_diff(d1.get(sec), d2.get(sec), sec)
-        chk.expect(not df, "R-C13-10", "section %r of the dictionary of the re-created fixture model equals the original" % sec, loc(fd),
+        chk.expect(not df, "R-C13-10", "section %r of the dictionary of the re-created fixture model equals the original%s" % (sec, tagv), loc(fd),
                    "to_dict(from_dict(json(to_dict(wn)))) compared with json(to_dict(wn)) for the fixture model built through the public API (interpreted)", expected="no difference", found=df[:5])
     df = dict_diff(d2, d3, "")
-    chk.expect(not df, "R-C13-10", "appending the dictionary to an empty model equals creating the model from it", loc(fd), found=df[:5])
-    chk.floor("R-C13-10", 10)
-    chk.sample({"rule": "R-C13-10", "fixture_sizes": sizes})
+    chk.expect(not df, "R-C13-10", "appending the dictionary to an empty model equals creating the model from it" + tagv, loc(fd), found=df[:5])
+    chk.sample({"rule": "R-C13-10", "variant": variant, "fixture_sizes": sizes})
 
 
 def run(repo, chk):
